@@ -44,7 +44,7 @@ try:
     for p in props:
         t = time.time()
         pr = subprocess.run(f"cd /verif && ./check {p} --tier quick", shell=True, capture_output=True, text=True,
-                            env=dict(os.environ, PYTHONPATH=REPO + "/src"))
+                            env=dict(os.environ, PYTHONPATH=REPO + "/src", VERIF_EVIDENCE_DIR="/verif/.scratch/evidence_eval"))
         lines = [l for l in pr.stdout.splitlines() if l.startswith(("VIOLATION", "KNOWN-FINDING", "ENGINE", "[")) or l.startswith("  C")]
         viol = [l for l in pr.stdout.splitlines() if l.startswith("VIOLATION")]
         detail = [l.strip()[:240] for l in pr.stdout.splitlines() if l.startswith("  C")][:3]
